@@ -52,6 +52,7 @@ func ProfileFor(prop string) *Profile {
 		w["put"], w["update"], w["delete"], w["get"] = 3, 3, 2, 0.5
 		w["bad"], w["idxtype"], w["keyupdate"], w["batchbad"], w["batchw"] = 4, 2.5, 0.5, 1, 1
 		w["batchpartial"], w["keyextra"] = 1.5, 0.4
+		w["idxcreate"], w["idxdrop"] = 0.5, 0.2
 		w["putcond"], w["updcond"], w["delcond"] = 0.8, 0.8, 0.8
 		w["toggle"] = 0.3
 		p.FaultFree = 0.1
